@@ -13,11 +13,11 @@ import JenVerif.Gen.Globals
 namespace C09
 open Code
 
-/-- OBLIGATION (regenerated): the package-level variables of jen are exactly the two read-only
-    tables, and no function writes (assigns, appends to, increments, deletes from, or takes the
-    address of) any package-level variable -/
-theorem no_global_state :
-    Gen.globalWrites = [] ∧ Gen.globals.all (fun g => [b!"standardLibraryHints", b!"reserved"].contains g) = true := by
+/-- OBLIGATION (regenerated): no function of package jen (outside `init`) writes — assigns,
+    appends to, increments, deletes from, takes the address of — a package-level variable, calls a
+    method on one (other than a compiled regexp, which is read-only) or hands one to another
+    function: the package-level variables are inert tables, there is no hidden global state -/
+theorem no_global_state : Gen.globalWrites = [] ∧ Gen.globalSuspicious = [] := by
   decide
 
 /-- operations on a family of Files, each naming the File it acts on -/
